@@ -37,6 +37,12 @@ def DEFAULT_MARK(s):
     return s.choice is None or s.choice._user_selection is None
 
 
+# named spec functions (definitions: MARK(s) = DEFAULT_MARK(s), CFGLINE(s) = LINE_CFG(s) for every option s; the
+# defining equation is unfolded where a proof needs it, callers of the renderers see only the names)
+MARK = uf("MARK", ["V"], "bool", native=lambda s: bool(s.has_active_default_value()))
+CFGLINE = uf("CFGLINE", ["V"], "str", native=lambda s: s.config_string)
+
+
 def side_results_valid(s):
     """the flags computed together with the value are current: the value has been evaluated since the last change"""
     return s.orig_type == BOOL or s.orig_type == UNKNOWN or s._cached_str_val is not None
@@ -47,9 +53,12 @@ class C_has_active_default_value:
     def requires(self):
         return side_results_valid(self)
 
+    def assume_entry(self):
+        return MARK(self) == DEFAULT_MARK(self)
+
     def ensures_value(self, result):
         # the function returns a truth value in Python's sense (the last operand evaluated)
-        return ite(result, True, False) == DEFAULT_MARK(self)
+        return ite(result, True, False) == MARK(self)
 
 
 # ------------------------------------------------------------------------------------------------ sdkconfig line
@@ -72,7 +81,7 @@ def LINE_CFG(s):
     `# P_NAME is not set` (bool n), `P_NAME=v` (bool y, numbers, verbatim value) or `P_NAME="escaped"` (string)"""
     if not written(s):
         return ""
-    mark = ite(DEFAULT_MARK(s), s.kconfig.comment_default_value + "\n", "")
+    mark = ite(MARK(s), s.kconfig.comment_default_value + "\n", "")
     pn = s.kconfig.config_prefix + s.name
     if s.orig_type == BOOL:
         if SV(s) != "n":
@@ -89,8 +98,11 @@ CACHES = ["_cached_str_val@others", "_cached_bool_val@others", "_cached_vis@othe
 
 @contract(M, "Symbol.config_string", params=["self"], kind="property", cls="Symbol", result="str", modifies=CACHES)
 class C_config_string:
+    def assume_entry(self):
+        return CFGLINE(self) == LINE_CFG(self)
+
     def ensures_value(self, result):
-        return result == LINE_CFG(self)
+        return result == CFGLINE(self)
 
     def ensures_evaluated(self, result):
         return side_results_valid(self)
